@@ -527,6 +527,12 @@ where
         data: Datagrams,
     ) -> Result<(), ForwardPacketError> {
         self.metrics.send_packets_recv.inc();
+        if data.contents.is_empty() {
+            // The receiving connection rejects empty packets with an error that ends it:
+            // drop them here instead of queueing them.
+            self.metrics.send_packets_dropped.inc();
+            return Ok(());
+        }
         self.clients
             .send_packet(dst, data, self.guard.endpoint_id(), &self.metrics)?;
 
